@@ -711,7 +711,7 @@ def _byte_guard(body):
 
 
 # ==== dispatch probing with the partial evaluator ========================================================================
-from peval import PE, Sym, Adt, Tup, Undecided, ok as pe_ok, err as pe_err, NONE as PE_NONE, UNIT as PE_UNIT
+from peval import PE, Sym, Adt, Tup, Undecided, ok as pe_ok, err as pe_err, NONE as PE_NONE, UNIT as PE_UNIT, vkey as vkey_
 from r_pe import result_kind, unwrap_common
 
 READ_PRIMS = {"common::utils::read_u8": "byte", "common::utils::read_u16": "u16", "common::utils::read_u32": "u32",
@@ -730,11 +730,38 @@ def prop_loop_body(F, fid):
     raise AnchorLost("%s: property loop (a while loop that parses a PropertyId)" % fid)
 
 
-def probe(F, loop, id_byte, dup=False, value_byte=None):
-    """Evaluate one iteration of a property loop for a given identifier byte.
-    Returns {"outcome": ('continue',) | ('err', variant, payload values) | ('other', ..), "reads": [...], "stores": [...]}"""
+def _props_local(F, fn_body, loop):
+    """(var id, struct path) of the local property set the loop fills: the variable of a `*Properties` struct type declared
+    before the loop."""
+    for n in walk_all(fn_body):
+        if n.get("k") == "Block":
+            for st in n.get("stmts", []):
+                if st.get("k") == "Let" and st["pat"].get("k") == "Binding":
+                    ty = (st["pat"].get("ty") or "").lstrip("&")
+                    if ty.endswith("Properties") and ty in F.adts:
+                        return st["pat"]["var"]["id"], ty
+    return None, None
+
+
+def _fresh_props(F, path, dup):
+    fields = {}
+    for f in F.adts[path]["variants"][0]["fields"]:
+        ty = f["ty"]
+        if ty.startswith("core::option::Option<"):
+            fields[f["name"]] = Adt("core::option::Option", "Some", {"0": Sym(("old", f["name"]))}) if dup else Adt("core::option::Option", "None")
+        elif ty.startswith("alloc::vec::Vec<"):
+            fields[f["name"]] = Tup([])
+        else:
+            fields[f["name"]] = Sym(("init", f["name"]))
+    return Adt(path, path.rsplit("::", 1)[1], fields)
+
+
+def probe(F, loop, id_byte, dup=False, value_byte=None, fn_body=None, int_value=None):
+    """Evaluate one iteration of a property loop for a given identifier byte on a *concrete* property set (every optional
+    field None, or every optional field already Some when `dup`): duplicate tests, stores and pushes are then observed on
+    the struct itself, however the decoder reaches them (inline, `&mut` helper, guard helper).
+    Returns {"outcome": ('continue',) | ('err', variant, payload values) | .., "reads": [...], "stores": [(field, value)], "pushes": [field]}"""
     reads = []
-    pushes = []
     state = {"n_u8": 0}
 
     def hook(d, res, args, node, env):
@@ -750,25 +777,18 @@ def probe(F, loop, id_byte, dup=False, value_byte=None):
             reads.append(kind)
             if kind == "varint":
                 return pe_ok(Tup([Sym(("read", len(reads))), Sym("nbytes")]))
+            if int_value is not None and kind in ("u16", "u32"):
+                return pe_ok(int_value)
             return pe_ok(Sym(("read", len(reads))))
         if r == "common::utils::var_int_len":
             return pe_ok(Sym("varlen"))
         if r.endswith("::try_from") or r.endswith("TryFrom<alloc::string::String>>::try_from") or r.endswith("TryFrom<u32>>::try_from"):
             return pe_ok(Sym(("validated", repr(args[0]))))
-        if node["fn"].get("name") == "push" and args and isinstance(args[0], Sym) and isinstance(args[0].tag, tuple) and args[0].tag[0] == "field":
-            pushes.append(args[0].tag[2])
-            return PE_UNIT
         return None
 
     def cond(what, node):
         k = what[0]
         if k == "truth":
-            v = what[1]
-            tag = getattr(v, "tag", None)
-            if isinstance(tag, tuple) and tag and tag[0] == "call" and tag[1].endswith("::is_some"):
-                return dup
-            if isinstance(tag, tuple) and tag and tag[0] == "call" and tag[1].endswith("::is_none"):
-                return not dup
             return False
         if k == "pat-variant":
             if what[2] == "core::option::Option":
@@ -778,11 +798,16 @@ def probe(F, loop, id_byte, dup=False, value_byte=None):
             return False
         if k == "try-ok":
             return True
-        if k == "cmp":
-            return False
         return False
     pe = PE(F, call_hook=hook, cond_hook=cond)
     env = {}
+    props = None
+    if fn_body is not None:
+        vid, path = _props_local(F, fn_body, loop)
+        if vid is not None:
+            props = _fresh_props(F, path, dup)
+            env[vid] = props
+    before = {k: (vkey_(v), len(v.items) if isinstance(v, Tup) else None) for k, v in props.fields.items()} if props is not None else {}
     out = None
     from peval import _Ret, _Brk, _Cont
     try:
@@ -800,9 +825,17 @@ def probe(F, loop, id_byte, dup=False, value_byte=None):
             out = ("return", repr(r.v))
     except Undecided as e:
         out = ("undecided", str(e))
-    stores = []
+    stores, pushes = [], []
+    if props is not None:
+        for fname, v in props.fields.items():
+            if isinstance(v, Tup):
+                if len(v.items) != before[fname][1]:
+                    pushes.append(fname)
+            elif vkey_(v) != before[fname][0]:
+                val = v.fields.get("0") if isinstance(v, Adt) and v.adt == "core::option::Option" and v.variant == "Some" else v
+                stores.append((fname, val))
     for ev in pe.events:
-        if ev[0] == "store":
+        if ev[0] == "store" and props is None:
             tag = ev[1]
             if isinstance(tag, tuple) and tag[0] == "field":
                 stores.append((tag[2], ev[2]))
@@ -823,13 +856,16 @@ def probe_table(F, fid):
     tab = {}
     for v, d in sorted(discr.items(), key=lambda kv: kv[1]):
         val = 0 if d in S.BOOL_PROPERTIES else None
-        r = probe(F, loop, d, value_byte=val)
-        r["dup"] = probe(F, loop, d, dup=True, value_byte=val)
+        r = probe(F, loop, d, value_byte=val, fn_body=_b)
+        r["dup"] = probe(F, loop, d, dup=True, value_byte=val, fn_body=_b)
         if d in S.BOOL_PROPERTIES:
-            r["byte"] = {b: probe(F, loop, d, value_byte=b) for b in (0, 1, 2, 255)}
+            r["byte"] = {b: probe(F, loop, d, value_byte=b, fn_body=_b) for b in (0, 1, 2, 255)}
+        if r["reads"] in (["u16"], ["u32"]) and r["outcome"] == ("continue",):
+            top = 0xFFFF if r["reads"] == ["u16"] else 0xFFFFFFFF
+            r["ints"] = {iv: probe(F, loop, d, fn_body=_b, int_value=iv) for iv in (0, 1, top)}
         tab[v] = r
     unknown = next(b for b in range(256) if b not in discr.values())
-    tab["<unknown>"] = probe(F, loop, unknown)
+    tab["<unknown>"] = probe(F, loop, unknown, fn_body=_b)
     cache[fid] = (tab, loop)
     return cache[fid]
 
@@ -933,11 +969,27 @@ def h_bytevals(F, R):   # noqa: F811
                     ok = out == ("continue",) and len(pr["stores"]) == 1
                     if ok:
                         val = pr["stores"][0][1]
-                        inner = val.fields.get("0") if isinstance(val, Adt) and val.variant == "Some" else None
-                        ok = inner == bool(b) or (isinstance(inner, Adt) and inner.variant == "Level%d" % b)
+                        inner = val.fields.get("0") if isinstance(val, Adt) and val.variant == "Some" else val     # probe reports the payload
+                        ok = inner is bool(b) or (isinstance(inner, Adt) and inner.variant == "Level%d" % b)
                     R.check(ok, "H-bytevals", "%s/%s/%d" % (ent["name"], v, b),
                             "%s: %s with value %d gives %s and stores %s" % (ent["name"], v, b, out, pr["stores"]), where=loc(loop))
     R.floor("H-bytevals", "restricted byte properties", n, 9)
+    # two- and four-byte integer properties are not restricted by the (pinned) grammar: 0, 1 and the maximum are stored as read
+    m = 0
+    for ent in ents:
+        try:
+            tab, loop = probe_table(F, ent["decode"])
+        except AnchorLost:
+            continue
+        for v, r in tab.items():
+            for iv, pr in (r.get("ints") or {}).items():
+                m += 1
+                out = pr["outcome"]
+                okk = out == ("continue",) and len(pr["stores"]) == 1 and pr["stores"][0][1] == iv
+                R.check(okk, "H-intvals", "%s/%s/%d" % (ent["name"], v, iv),
+                        "%s: %s with value %d gives %s and stores %s (the integer properties accept every value and store it unchanged)" % (
+                            ent["name"], v, iv, out, pr["stores"]), where=loc(loop))
+    R.floor("H-intvals", "integer property values", m, 30)
 
 
 def h_proplen(F, R):   # noqa: F811
